@@ -153,6 +153,22 @@ def handleE2E (fs : List String) : String :=
     | none => "bad-op"
   | _ => "bad-op"
 
+/-- stream `audithttp`: `nonlogical <endpoint> <none|req|resp>` — an audited endpoint of the HTTP layer whose handler
+answers with secret material (OTP, new key shares), one audit device that accepts everything or refuses the request /
+the response entry: what the client receives is the pipeline's verdict (`AuditPipeline.result`; the unauthenticated
+endpoints have no token check: kind `login`) -/
+def handleHTTP (fs : List String) : String :=
+  match fs with
+  | ["nonlogical", _endpoint, fail] =>
+    let dev (b : Bool) : List Outcome := if b then [.err] else [.ok]
+    if fail ≠ "none" ∧ fail ≠ "req" ∧ fail ≠ "resp" then "bad-op" else
+    let i : PipeIn := { kind := .login, reqDevs := dev (fail = "req"), respDevs := dev (fail = "resp"),
+                        handler := { err := .none, resp := .payload ⟨true, false, false, false⟩ } }
+    let c := result i
+    (if c.err = .none then "ok" else "err") ++ "|secret:" ++ (if c.carries then "present" else "none")
+  | _ => "bad-op"
+
 def streams : List (String × Driver.Stream) :=
-  [("auditbroker", .stateless handleBroker), ("auditpipe", .stateless handlePipe), ("audite2e", .stateless handleE2E)]
+  [("auditbroker", .stateless handleBroker), ("auditpipe", .stateless handlePipe), ("audite2e", .stateless handleE2E),
+   ("audithttp", .stateless handleHTTP)]
 end Driver.Audit
